@@ -9,10 +9,40 @@ LEVEL = "other"
 DEDUCTIVE = [{"module": "rnapolis.tertiary", "sidecar": "contracts.mapping_c",
               "targets": ["Mapping2D3D.__generate_bpseq", "Mapping2D3D._generated_bpseq_data", "Mapping2D3D.base_pairs@body",
                           "BasePair3D.reverse", "Structure3D.find_residue@body"]}]
-TRUSTED = ["CPython 3.12", "the MILP path of BpSeq.dot_bracket (C02)"]
-ASSUMPTIONS = ["pair lists name nucleotide residues; self pairs are not generated; Saenger labels are a function of (bases, class) within one list"]
-EXPLANATION = "see DESIGN.md 4/C06"
-
+TRUSTED = ["CPython 3.12", "z3 5.1.0 / cvc5 1.0.3", "pyvc encoding of Python semantics (DESIGN 2.3)",
+           "the MILP path of BpSeq.dot_bracket (C02)",
+           "external (contracts.mapping_c EXTERNALS) builtins.sorted on a set: returns a list holding exactly the members of the set, each once; "
+           "the ordering clause is NOT assumed (arbitrary permutation: over-approximates sorted()); its key function raises nothing",
+           "external (contracts.mapping_c EXTERNALS) collections.defaultdict(set): empty dict whose missing-key read inserts set()",
+           "attr:BasePair3D.is_canonical (PURE_ATTRS): a pure function of the frozen record value; nothing else about it is used"]
+ASSUMPTIONS = ["pair lists name nucleotide residues; self pairs are not generated (requires no_self_pairs: an entry whose two residues both resolve never resolves them to the same 3D residue); Saenger labels are a function of (bases, class) within one list",
+               "structure: the nucleotide residues of Structure3D.residues are pairwise different values (==), i.e. usable as distinct dict keys (requires distinct_nucleotides)",
+               "structure: every residue has a label or an auth identifier (Residue.number is an int, Residue.chain a str, never None)",
+               "frozen dataclasses Residue3D / Residue / ResidueLabel / ResidueAuth and the Enum LeontisWesthof are modelled as interned values: == is identity of the value, every attribute (incl. the properties chain/number/icode, the cached_property is_nucleotide, LeontisWesthof.reverse) is a pure function of the value; the converse 'equal modelled fields => equal value' is not assumed",
+               "assumed callee contract Residue3D.is_connected: a pure boolean function of the two residues (uninterpreted `connected`)",
+               "Residue.__lt__ (common.py) is a pure boolean relation of the two residues (uninterpreted `res_lt`); nothing else about it is used",
+               "cached_property rule: Mapping2D3D.base_pairs is a deterministic function of the unchanged object - its value is the model field base_pairs_value (clause `result == self.base_pairs_value` of the callee contract; every other clause of that contract is proved against the body as Mapping2D3D.base_pairs@body)",
+               "Optional[Saenger] is only copied/compared by the code under contract: modelled as an opaque scalar",
+               "BpSeq.__post_init__ (common.py) is not modelled: BpSeq.pairs of the returned object is unconstrained; it cannot raise on Entry rows",
+               "the clause 'keeps every canonical pair that conflicts with no other' is stated for the entry in 5'->3' orientation (nt1 < nt2 by Residue.__lt__); both orientations are always in Mapping2D3D.base_pairs (proved), an entry whose two residues are not strictly ordered either way (same chain, number, icode) is not covered",
+               "set iteration order is arbitrary in the engine; which of two conflicting pairs survives is deliberately unspecified (the property does not say)"]
+EXPLANATION = ("Deductive (pyvc, sidecar contracts/mapping_c.py, real source re-read on every run): "
+               "(1) Mapping2D3D.__generate_bpseq(base_pairs) under `requires` distinct nucleotides + the pair list is a matching over 3D residues: "
+               "entries are numbered 1..N (index_ == position), the BPSEQ is valid (pair in range, != self, symmetric => at most one partner), every numbered "
+               "index carries the one-letter name of its residue and every other index is an unpaired '?', the numbered residues are exactly the nucleotide "
+               "residues of the structure, each once, in file order, with exactly max(0, dnumber-1) placeholders between neighbours where gap detection fires "
+               "(find_gaps and not is_connected and same chain) and none elsewhere, a non-empty BPSEQ starts and ends with a nucleotide; every pairing joins the "
+               "residues of a list entry and every list entry with both residues numbered is present; the BpSeq object is fresh. "
+               "(2) Mapping2D3D._generated_bpseq_data: conflict resolution (while True / for-else, decreases len(canonical)) keeps canonical a duplicate-free "
+               "sub-list of the canonical input pairs, every dropped pair has a competitor for one of its residues, at exit no residue occurs in two pairs - "
+               "the `requires` of (1) is PROVED at the call site - and the result has all structural clauses of (1) plus: every pairing comes from a canonical "
+               "pair of Mapping2D3D.base_pairs; every canonical pair (orientation nt1<nt2) that no canonical entry competes with is present. "
+               "(3) Mapping2D3D.base_pairs (lifting): the result is duplicate-free, consists only of liftings / reversed liftings of input entries whose two "
+               "residues resolve (dangling entries dropped), contains the lifting and its reverse of every such entry, has no self pairs; BasePair3D.reverse "
+               "swaps the residues and reverses the class; Structure3D.find_residue returns the residue registered under the label, else under the auth id, else None. "
+               "NOT under contract (bounded stand-in only): Mapping2D3D.bpseq wrapper (re-runs the same loop on dead locals, returns _generated_bpseq_data[0]), "
+               "strands_sequences / __generate_dot_bracket_per_strand / dot_bracket / all_dot_brackets (agreement of the two gap computations, text assembly) "
+               "and extended_dot_bracket (rows alias elements of `rows`; needs list objects with identity). Order of first occurrence in base_pairs is not proved.")
 
 def bounded(tier, seed):
     rng = rng_for(seed, "c06")
